@@ -286,6 +286,7 @@ pub struct Ctx {
     pub required_classes: Vec<String>,
     pub notes: Vec<String>,
     pub replayed: bool,
+    pub max_shrink_iters: u32,
 }
 
 pub const PROFILE: &str = if cfg!(debug_assertions) { "dbg" } else { "rel" };
@@ -326,6 +327,7 @@ impl Ctx {
             required_classes: vec![],
             notes: vec![],
             replayed: false,
+            max_shrink_iters: 4096,
         }
     }
 
@@ -424,7 +426,9 @@ impl Ctx {
             cases,
             failure_persistence: None,
             rng_seed: RngSeed::Fixed(seed),
-            max_shrink_iters: 4096,
+            max_shrink_iters: self.max_shrink_iters,
+            // shrinking is a convenience, not a verdict: bound it by wall time as well
+            max_shrink_time: 30_000,
             max_global_rejects: 65536,
             ..Config::default()
         };
@@ -490,6 +494,9 @@ impl Ctx {
             return;
         }
         let seed0 = self.seed;
+        // each evaluation of a long case is expensive: shrink only a little
+        let iters0 = self.max_shrink_iters;
+        self.max_shrink_iters = 40;
         for (i, n) in lens.iter().enumerate() {
             if (i as u32) % self.nshards != self.shard {
                 continue;
@@ -497,9 +504,14 @@ impl Ctx {
             self.seed = seed0 ^ ((*n as u64) << 20);
             let shard = self.shard;
             self.shard = 0;
+            let before = self.failures.len();
             self.forall(sub, 1, mk(*n), &check);
             self.shard = shard;
+            if self.failures.len() > before {
+                break;
+            }
         }
+        self.max_shrink_iters = iters0;
         self.seed = seed0;
     }
 
